@@ -19,6 +19,7 @@ type Env struct {
 	state  *State
 	old    *State
 	lookup func(name string, st *State) (Val, bool) // locals (memory-resident ones are read in st)
+	lookupEntry func(name string, st *State) (Val, bool) // locals with the values they had when the loop was entered
 	bound  map[string]Val
 	pkg    *types.Package
 	errs   *[]string
@@ -791,7 +792,12 @@ func (e *Env) call(x *SExpr) Val {
 		}
 		ne := e.with(e.loopPre)
 		ne.inOld = true
-		ne.localsFirst = false
+		if e.lookupEntry != nil {
+			// loop-carried variables denote their value at loop entry, not the current one
+			ne.lookup = e.lookupEntry
+		} else {
+			ne.localsFirst = false
+		}
 		return ne.tr(x.Args[0])
 	case "deref":
 		if x.Args[0].Op == "ident" && e.derefs != nil {
